@@ -122,11 +122,12 @@ def execute(ob):
 
 def switch_runs(cell):
     """End-to-end: one real cell in the four switch combinations; returns per-combination comparison with (T,T)."""
-    kind, proc, pto = cell
+    kind, proc, pto = cell[:3]
+    scheme = dict(FNS=cell[3], NfFF=cell[4]) if len(cell) > 3 else {}
     res = {}
     for ren in (True, False):
         for fact in (True, False):
-            th = cards.theory(PTO=pto, PTODIS=pto, RenScaleVar=ren, FactScaleVar=fact, mc=2.0, mb=5.0, mt=170.0, Q0=1.0)
+            th = cards.theory(PTO=pto, PTODIS=pto, RenScaleVar=ren, FactScaleVar=fact, mc=2.0, mb=5.0, mt=170.0, Q0=1.0, **scheme)
             xg = cards.make_grid(4, 4, x_min=1e-2)
             ob = cards.obs({f"{kind}_total": [dict(x=0.12, Q2=30.0)]}, xgrid=xg, deg=3, prDIS=proc,
                            ProjectileDIS="neutrino" if proc == "CC" else "electron")
@@ -146,6 +147,16 @@ def switch_runs(cell):
                 bad.append(f"ren={ren} fact={fact}: switched-off key {k} is not zero")
             if not off and not np.array_equal(t[k], full[k]):
                 bad.append(f"ren={ren} fact={fact}: key {k} changed (max diff {np.max(np.abs(t[k]-full[k])):.3e})")
+    # the renormalisation-group identity on the OUTPUT, entry by entry and for every parton row (massive and heavy-quark initiated
+    # contributions included): (2,0,1,0) = -beta0 (1,0,0,0) with ONE beta0 = 11 - 2/3 nf, nf = NfFF in a fixed scheme
+    if pto >= 2:
+        nf = scheme.get("NfFF", 5)     # Q2 = 30 > mb^2 = 25 in the variable-flavour cells
+        b0 = 11.0 - 2.0 / 3.0 * nf
+        a, b = full[(1, 0, 0, 0)], full[(2, 0, 1, 0)]
+        dev = float(np.max(np.abs(b + b0 * a)))
+        if dev > 1e-12 * float(np.max(np.abs(b))) + 1e-300:
+            i = int(np.argmax(np.max(np.abs(b + b0 * a), axis=1)))
+            bad.append(f"ren identity: (2,0,1,0) + beta0({nf}) (1,0,0,0) = {dev:.3e} (of {np.max(np.abs(b)):.3e}) in parton row {i}")
     nontrivial = sum(1 for k in want if np.any(full[k] != 0) and (k[2] > 0 or k[3] > 0))
     return dict(cell=list(cell), bad=bad, nontrivial_sv_keys=nontrivial)
 
@@ -209,13 +220,14 @@ def run(ctx):
         ctx.violation(key, f"sector {ln['sec']} nf={ln['nf']} pto={ln['pto']} RenScaleVar={ln['ren']} FactScaleVar={ln['fact']} "
                       f"intrinsic={ln['intrinsic']}: {clause} {ln['note']}", dict(kind="C05-inject", obligation=o, observed=ln))
     # (b) end-to-end switches on real runs
-    cells = [("F2", "EM", 2), ("F3", "CC", 2), ("FL", "NC", 1)] if q else \
-        [("F2", "EM", 2), ("F3", "CC", 2), ("FL", "NC", 2), ("F3", "NC", 2), ("g1", "NC", 2), ("F2", "CC", 1), ("F2", "EM", 3)]
+    cells = [("F2", "EM", 2), ("F3", "CC", 2), ("FL", "NC", 1), ("F2", "NC", 2, "FFNS", 3)] if q else \
+        [("F2", "EM", 2), ("F3", "CC", 2), ("FL", "NC", 2), ("F3", "NC", 2), ("g1", "NC", 2), ("F2", "CC", 1), ("F2", "EM", 3),
+         ("F2", "NC", 2, "FFNS", 3), ("FL", "NC", 2, "FFNS", 4), ("F2", "CC", 2, "FFNS", 3), ("F2", "NC", 2, "FONLL-FFNS", 4)]
     for r in ctx.pmap(switch_runs, cells):
         ctx.count(1, nontrivial_key=("switch", tuple(r["cell"])) if r["nontrivial_sv_keys"] else None)
         ctx.cov["traces_validated_against_impl"] += 0
         for b in r["bad"]:
-            ctx.violation(f"switch:{r['cell'][0]}:{r['cell'][1]}:pto{r['cell'][2]}:{b.split(':')[0]}",
+            ctx.violation(f"switch:{r['cell'][0]}:{r['cell'][1]}:pto{r['cell'][2]}{':' + r['cell'][3] + str(r['cell'][4]) if len(r['cell']) > 3 else ''}:{b.split(':')[0]}",
                           f"end-to-end switch-off {r['cell']}: {b}", dict(kind="C05-switch", cell=r["cell"]))
     # (c) moments of the convolved labels
     jobs = [(nf, N) for nf in ((3, 5) if q else (3, 4, 5, 6)) for N in ((2.0, 3.5) if q else (2.0, 3.0, 3.5, 6.0))]
